@@ -10,4 +10,4 @@ Extraction "model.ml"
   related_path wrelated_path resolve_item
   box_decisions is_nested union_cycle_b
   layout layout_pred generate_unique_name lower_message lower_message_pinned
-  decisions verdict closed_b ws_complete_b btree_unsupported_b.
+  decisions verdict closed_b ws_complete_b.
